@@ -157,7 +157,10 @@ def run(pid, tier):
     eff = tier if (not res.broken or tier == 'thorough') else 'search'
     step = {'quick': 20, 'search': 6}.get(eff, 1)
     if step > 1:
-        sample = rels[common.seed() % step::step]
+        std = [r_ for r_ in rels if not r_.startswith('site-packages/')]
+        site = [r_ for r_ in rels if r_.startswith('site-packages/')]
+        sstep = max(2, step * 3 // 5)          # the typed third-party corpus is sampled more densely (quick: 1 in 12)
+        sample = std[common.seed() % step::step] + site[common.seed() % sstep::sstep]
         # plus the files in which each syntactic feature the size options act on is densest (corpus/FEATURES.json, computed from the pinned files)
         try:
             import json as _json
